@@ -328,7 +328,7 @@ def plan(tier, seed):
         cfg = seq.Config(c, initial=(INIT[k],), label=c)
         kw = dict(label="a/%s/d%d" % (c, depth), cfg=cfg, alphabet="alphabet", depth=depth, oracles={"result"}, hooks="probe")
         if depth >= 4:
-            kw["max_transitions"] = 200000
+            kw["max_transitions"] = 40000
         tasks += seqcheck.split(4 if depth <= 3 else 16, **kw)
     for fam in env.ATTR_FAMILIES:
         c = env.JSON_FAMILIES[fam][0]
